@@ -386,7 +386,7 @@ pub fn array_cap_supported(cap: usize) -> bool {
 /// Deterministic io-sink lane for (io_seed, cap): short writes, EINTR and (one run in five) one non-retryable device error.
 fn io_lane(io_seed: u64, cap: usize) -> (Vec<Step>, FullMode, bool) {
     let mut r = Rng::new(io_seed ^ (cap as u64).wrapping_mul(0x9E37_79B9));
-    let mode = if r.chance(1, 2) { FullMode::Error } else { FullMode::Zero };
+    let mode = *r.pick(&[FullMode::Error, FullMode::Error, FullMode::Zero, FullMode::Zero, FullMode::WouldBlock]);
     let style = r.below(4);
     let n = r.usize_in(0, 24);
     // one run in five: the device fails once with a non-retryable error somewhere in the middle
@@ -446,6 +446,22 @@ fn run_encode(values: &[ValSpec], only_sink: Option<Sink>, only_cap: Option<u32>
         }
         out
     };
+    // the convenience entry point for the growable sink, called right after a to_vec that failed part-way on this thread
+    // (state that survives a failed call must not leak into the next result)
+    {
+        let _ = minicbor::to_vec(FailEncode { partial: 3 });
+        let mut tv = Vec::new();
+        for v in values {
+            match reference_encoding(v) {
+                Some(b) => tv.extend_from_slice(&b),
+                None => return Ok(()),
+            }
+        }
+        if tv != reference {
+            let d = tv.iter().zip(reference.iter()).position(|(a, b)| a != b).unwrap_or(tv.len().min(n));
+            fail!("bytes_equal", "to_vec (after a failed to_vec on the same thread) differs from the recording sink at offset {d}: {} vs {} bytes", tv.len(), n);
+        }
+    }
     let mut vec_ref = Vec::new();
     let _ = encode_all(values, &mut vec_ref);
     if vec_ref != reference {
